@@ -149,8 +149,6 @@ class Connector:
         """
         self.__device = None
         self.set_device(device)
-        if self.__device is not None:
-            self.__device.set_connector(self)
 
         # Interface stall
         self.__stalled = False
@@ -183,6 +181,12 @@ class Connector:
 
         # Interface disconnection
         self.__disconnected = ThreadEvent()
+
+        # Link the device with this connector only now that the connector is
+        # fully initialized: the device I/O thread may send events to its
+        # connector as soon as it knows it.
+        if self.__device is not None:
+            self.__device.set_connector(self)
 
         # Start background thread (start processing messages)
         self.__io_thread.start()
